@@ -14,8 +14,11 @@ import json, os, shutil, subprocess, sys
 
 HERE = os.path.dirname(os.path.dirname(os.path.abspath(__file__)))
 
+quick_recheck = False
+
 def main():
     args = sys.argv[1:]
+    global quick_recheck
     srcs, extra, recheck, tag = [], [], False, ""
     while args:
         a = args.pop(0)
@@ -25,6 +28,8 @@ def main():
             tag = args.pop(0)
         elif a == "--recheck":
             recheck = True
+        elif a == "--recheck-checks-only":
+            recheck = quick_recheck = True
         else:
             srcs.append(os.path.abspath(a))
     for src in srcs:
@@ -32,7 +37,7 @@ def main():
         prop = meta["property"]
         checks = [prop] + [c for c in extra if c != prop] + [c for c in meta.get("also_check", []) if c != prop]
         def verify(cs):
-            p = subprocess.run([sys.executable, os.path.join(HERE, "tools/seedverify.py"), src, "--checks", ",".join(cs)], capture_output=True, text=True)
+            p = subprocess.run([sys.executable, os.path.join(HERE, "tools/seedverify.py"), src, "--checks", ",".join(cs)] + (["--skip-confirm"] if recheck and quick_recheck else []), capture_output=True, text=True)
             try:
                 return json.loads(p.stdout)
             except Exception:
